@@ -201,3 +201,115 @@ Example C07_example_filter_and_invert :
   considered {| c_mode := MName; c_recursive := true; c_include_hidden := false |} (FStr tbl) false [ex_in]
     = [(ex_root, [ex_a]); (ex_root, [ex_sub; ex_lnk; ex_d])].
 Proof. vm_compute. repeat split; reflexivity. Qed.
+
+(* ---------- the RENAME step: every entry outside the selection keeps its path and content ------ *)
+(* Model: Pipe/Pipeline.v over FS/Model.v; proofs: Pipe/Unselected.v.  The plan designates existing *)
+(* non-directories reached without symbolic links ([selected_ok_any]: the source-side conditions of *)
+(* Pipe/PlanExact.v; nothing is asked of the rendered values -- invalid names, raising templates,   *)
+(* paths leaving the input directory --, a file may be designated several times).  Then for every   *)
+(* strategy that cannot override (stop, ignore, manual without an "override" answer; custom paths   *)
+(* typed at the prompt are allowed), dry or real, any fault index and EVERY outcome of the run,     *)
+(* every entry of the initial tree whose path is not the path of a designated file (directories     *)
+(* included) is found at the same path with the same node in every filesystem state of the run.     *)
+From Tempren Require Import Py.PathLib FS.Model FS.Lemmas FS.WfCheck Pipe.Pipeline Pipe.PlanExact Pipe.Unselected.
+
+Theorem C07_unselected_untouched : forall c plan cwd s,
+  c_var c = fixed -> WF s -> selected_ok_any s plan -> no_override c -> c_mode c <> MDirectory ->
+  forall k n, In (k, n) s -> (forall f r, In (f, r) plan -> src_key f <> k) ->
+  forall s', In s' (s :: r_states (run c plan cwd s)) -> lookup s' k = Some n.
+Proof. exact unselected_untouched. Qed.
+Print Assumptions C07_unselected_untouched.
+
+(* the same without the hypothesis on the mode (name, path and directory mode; in path mode new     *)
+(* directories may appear, the entries of the initial tree still keep key and node), and for the     *)
+(* final tree as well                                                                                *)
+Theorem C07_unselected_untouched_any_mode : forall c plan cwd s,
+  c_var c = fixed -> WF s -> selected_ok_any s plan -> no_override c ->
+  forall k n, In (k, n) s -> (forall f r, In (f, r) plan -> src_key f <> k) ->
+  forall s', In s' (r_final (run c plan cwd s) :: s :: r_states (run c plan cwd s)) -> lookup s' k = Some n.
+Proof. exact unselected_untouched_any_mode. Qed.
+Print Assumptions C07_unselected_untouched_any_mode.
+
+(* With override (the flag, or whatever is typed at the prompt) the statement above is false for an  *)
+(* unselected entry sitting at a destination: that is what override means.  In name and directory    *)
+(* mode every unselected entry that is a directory, or that is not at the destination key of a plan  *)
+(* entry, keeps its key and node in every state, for every strategy and every outcome.               *)
+Theorem C07_unselected_untouched_override : forall c plan cwd s,
+  c_var c = fixed -> WF s -> selected_ok_any s plan -> c_mode c <> MPath ->
+  forall k n, In (k, n) s -> (forall f r, In (f, r) plan -> src_key f <> k) ->
+  (is_dir_node n = true \/ forall f t, In (f, RText t) plan -> dst_key f t <> k) ->
+  forall s', In s' (r_final (run c plan cwd s) :: s :: r_states (run c plan cwd s)) -> lookup s' k = Some n.
+Proof. exact unselected_untouched_override. Qed.
+Print Assumptions C07_unselected_untouched_override.
+
+(* non-vacuity: two roots, in/ {a b c d} and out/ {a b x}; the plan renames in/a -> x, in/b -> x     *)
+(* (collides with the renamed in/a) and in/d -> c (collides with the unselected in/c).  Under ignore *)
+(* both conflicts are skipped; in/c and the look-alikes out/a, out/b, out/x are not selected.         *)
+Example C07_example_unselected_ignore :
+  let r := run (un_cfg Ignore) un_plan [] un_fs in
+  r_status r = 0%Z /\ r_calls r = [(CRename, COk)] /\ length (r_states r) = 1%nat /\
+  lookup (r_final r) [un_in; [97]] = None /\
+  lookup (r_final r) [un_in; [120]] = Some (NFile 1) /\
+  lookup (r_final r) [un_in; [98]] = Some (NFile 2) /\        (* conflict ignored *)
+  lookup (r_final r) [un_in; [100]] = Some (NFile 6) /\       (* conflict ignored *)
+  lookup (r_final r) [un_in; [99]] = Some (NFile 3) /\        (* not selected *)
+  lookup (r_final r) [un_out; [97]] = Some (NFile 4) /\
+  lookup (r_final r) [un_out; [98]] = Some (NFile 5) /\
+  lookup (r_final r) [un_out; [120]] = Some (NFile 7).
+Proof. vm_compute. repeat split. Qed.
+
+(* the hypotheses of the theorem hold of the example, so it yields, for every state of that run: *)
+Example C07_example_unselected_by_theorem :
+  forall s', In s' (un_fs :: r_states (run (un_cfg Ignore) un_plan [] un_fs)) ->
+    lookup s' [un_in; [99]] = Some (NFile 3) /\ lookup s' [un_out; [97]] = Some (NFile 4) /\
+    lookup s' [un_out; [120]] = Some (NFile 7) /\ lookup s' [un_out] = Some NDir.
+Proof.
+  intros s' Hs'.
+  assert (T : forall k n, In (k, n) un_fs -> unselectedb un_plan k = true -> lookup s' k = Some n).
+  { intros k n Hk Hu.
+    apply (C07_unselected_untouched (un_cfg Ignore) un_plan [] un_fs);
+      [reflexivity | apply wf_b_sound; vm_compute; reflexivity
+       | apply selected_ok_anyb_sound; vm_compute; reflexivity | exact I | discriminate
+       | exact Hk | apply unselectedb_sound; exact Hu | exact Hs']. }
+  repeat split; apply T; try (vm_compute; reflexivity); simpl; tauto.
+Qed.
+
+(* any outcome: in/a designated a second time is gone by then, the run ends with an OSError (126)    *)
+(* after one rename; the theorem covers that run too                                                 *)
+Example C07_example_unselected_failed_run :
+  let r := run (un_cfg Ignore) un_plan_twice [] un_fs in
+  r_status r = 126%Z /\ r_calls r = [(CRename, COk); (CRename, CErr)] /\
+  selected_ok_anyb un_fs un_plan_twice = true /\ unselectedb un_plan_twice [un_out; [97]] = true /\
+  lookup (r_final r) [un_in; [99]] = Some (NFile 3) /\ lookup (r_final r) [un_out; [97]] = Some (NFile 4).
+Proof. vm_compute. repeat split. Qed.
+
+(* under override the unselected in/c, which sits at the destination of in/d -> c, IS replaced; the  *)
+(* entries of the second root are not at a destination key and are kept, by the override theorem     *)
+Example C07_example_unselected_override :
+  let r := run (un_cfg Override) un_plan [] un_fs in
+  r_status r = 0%Z /\ length (r_states r) = 3%nat /\
+  lookup (r_final r) [un_in; [99]] = Some (NFile 6) /\        (* replaced: at a destination *)
+  not_destinationb un_plan [un_in; [99]] = false /\
+  lookup (r_final r) [un_in; [120]] = Some (NFile 2) /\       (* in/b replaced the renamed in/a *)
+  not_destinationb un_plan [un_out; [120]] = true /\
+  lookup (r_final r) [un_out; [120]] = Some (NFile 7).
+Proof. vm_compute. repeat split. Qed.
+
+Example C07_example_unselected_override_by_theorem :
+  forall s', In s' (un_fs :: r_states (run (un_cfg Override) un_plan [] un_fs)) ->
+    lookup s' [un_out; [97]] = Some (NFile 4) /\ lookup s' [un_out; [120]] = Some (NFile 7) /\
+    lookup s' [un_in] = Some NDir.
+Proof.
+  intros s' Hs'.
+  assert (T : forall k n, In (k, n) un_fs -> unselectedb un_plan k = true ->
+              (is_dir_node n = true \/ not_destinationb un_plan k = true) -> lookup s' k = Some n).
+  { intros k n Hk Hu Hd.
+    apply (C07_unselected_untouched_override (un_cfg Override) un_plan [] un_fs);
+      [reflexivity | apply wf_b_sound; vm_compute; reflexivity
+       | apply selected_ok_anyb_sound; vm_compute; reflexivity | discriminate
+       | exact Hk | apply unselectedb_sound; exact Hu
+       | destruct Hd as [Hd|Hd]; [left; exact Hd | right; apply not_destinationb_sound; exact Hd]
+       | right; exact Hs']. }
+  repeat split; apply T; try (vm_compute; reflexivity); try (simpl; tauto);
+    try (right; vm_compute; reflexivity); left; reflexivity.
+Qed.
